@@ -36,6 +36,9 @@ def slice (s : Str) (lo hi : Int) : Str := (s.take hi.toNat).drop lo.toNat
 
 def hasSuffix (s suf : Str) : Bool := Str.isPrefixOf suf.reverse s.reverse
 
+/-- `strings.TrimSuffix` -/
+def trimSuffix (s suf : Str) : Str := if hasSuffix s suf then s.take (s.length - suf.length) else s
+
 /-- index of the last occurrence of `pat` in `s`, or -1 -/
 def lastIndexFrom (pat : Str) : Str → Nat → Int → Int
   | [], i, acc => if pat.isEmpty then Int.ofNat i else acc
